@@ -224,6 +224,24 @@ fn gen(t: &mut Tape, _tier: Tier) -> Scenario {
     sc.set_i("rk", [RK_SLICE, RK_SIM, RK_BUFREADER][t.below(3) as usize]);
     sc.set_i("bufcap", t.range(1, 100));
     sc.set_l("src_script", gen::draw_script(t));
+    if t.below(4) == 0 {
+        // arbitrary bytes AND a misbehaving environment: I/O faults at random calls
+        let mut f = Vec::new();
+        for _ in 0..t.range(1, 2) {
+            f.push(t.range(1, 40));
+            f.push([FK_OTHER, FK_INTERRUPTED, FK_WOULDBLOCK, FK_UNEXPECTED_EOF][t.below(4) as usize]);
+        }
+        sc.set_l("src_faults", f);
+        if t.below(2) == 0 {
+            sc.set_l(
+                "sink_wfaults",
+                vec![t.range(1, 6), [FK_OTHER, FK_INTERRUPTED, FK_WRITE_ZERO, FK_DISK_FULL][t.below(4) as usize]],
+            );
+        }
+        if t.below(4) == 0 {
+            sc.set_l("sink_ffaults", vec![1, FK_OTHER]);
+        }
+    }
     sc
 }
 
@@ -353,7 +371,15 @@ fn exec(sc: &Scenario, ctx: &mut Ctx) -> Vec<Violation> {
             Ok(true) => {}
         }
     }
-    let (mut sink, st) = SimSink::new(None, &[], Faults::none(), Faults::none());
+    let (mut sink, st) = SimSink::new(
+        None,
+        &[],
+        Faults::from_list(sc.l("sink_wfaults")),
+        Faults::from_list(sc.l("sink_ffaults")),
+    );
+    if !sc.l("src_faults").is_empty() || !sc.l("sink_wfaults").is_empty() {
+        ctx.stats.hit("arm.with_injected_io_faults");
+    }
     {
         let mut s = st.borrow_mut();
         s.count_only = true;
@@ -370,7 +396,7 @@ fn exec(sc: &Scenario, ctx: &mut Ctx) -> Vec<Violation> {
             input,
             sc.i("rk"),
             sc.l("src_script"),
-            Faults::none(),
+            Faults::from_list(sc.l("src_faults")),
             sc.i("bufcap") as usize,
             &mut sink,
             &opts,
@@ -440,7 +466,7 @@ fn exec(sc: &Scenario, ctx: &mut Ctx) -> Vec<Violation> {
 pub static C07: SimpleProp = SimpleProp {
     id: "C07",
     level: "exploration",
-    rule: "one evaluation = one run of a decoding entry point (lzma_decompress_with_options with every option / supplied-size / memlimit combination, lzma2_decompress, xz_decompress, Stream under a random history that keeps calling after errors, raw::LzmaDecoder with any accepted lc/lp/pb/dictionary(incl. 0)/size, raw::Lzma2Decoder) on: uniformly random bytes; a header announcing a 4 GiB dictionary and 2^63 bytes; LZMA2 chunk headers with maximal size fields; valid streams (incl. adversarial long symbols); grammar-generated near-valid .xz (field extremes with CRCs recomputed, 9-byte VLIs, nested/odd filters); each with 0-3 further mutations (bit flip, truncation, splice, duplication, extension, field extremes) — under the overflow-checked and the wrapping build. Monitors: no unwind; heap peak (metering allocator) <= literal table + 8*(input + bytes a correct decoder produces) + 256 KiB (only allocations made while library code runs are metered); a 120 s no-progress supervisor. Non-trivial = non-empty input; distinct by scenario hash",
+    rule: "one evaluation = one run of a decoding entry point (lzma_decompress_with_options with every option / supplied-size / memlimit combination, lzma2_decompress, xz_decompress, Stream under a random history that keeps calling after errors, raw::LzmaDecoder with any accepted lc/lp/pb/dictionary(incl. 0)/size, raw::Lzma2Decoder) on: uniformly random bytes; a header announcing a 4 GiB dictionary and 2^63 bytes; LZMA2 chunk headers with maximal size fields; valid streams (incl. adversarial long symbols); grammar-generated near-valid .xz (field extremes with CRCs recomputed, 9-byte VLIs, nested/odd filters); each with 0-3 further mutations (bit flip, truncation, splice, duplication, extension, field extremes), a quarter of them with I/O faults injected at random source/sink calls as well — under the overflow-checked and the wrapping build. Monitors: no unwind; heap peak (metering allocator) <= literal table + 8*(input + bytes a correct decoder produces) + 256 KiB (only allocations made while library code runs are metered); a 120 s no-progress supervisor. Non-trivial = non-empty input; distinct by scenario hash",
     runs_quick: 250_000,
     runs_thorough: 20_000_000,
     both_profiles: true,
